@@ -1290,6 +1290,16 @@ impl<T> Vec<T> {
     pub fn len(&self) -> (r: usize)
         ensures r == self@.len(),
     { unimplemented!() }
+
+    #[verifier::external_body]
+    pub fn first(&self) -> (r: Option<&T>)
+        ensures self@.len() == 0 ==> r is None, self@.len() > 0 ==> r == Some(&self@[0]),
+    { unimplemented!() }
+
+    #[verifier::external_body]
+    pub fn last(&self) -> (r: Option<&T>)
+        ensures self@.len() == 0 ==> r is None, self@.len() > 0 ==> r == Some(&self@[self@.len() - 1]),
+    { unimplemented!() }
 }
 
 // v[i]
@@ -1357,6 +1367,9 @@ pub open spec fn sfilter<T>(s: Seq<T>, q: spec_fn(T) -> bool) -> Seq<T>
         sfilter(s.drop_first(), q)
     }
 }
+
+// every element of `s` satisfies `q`
+pub open spec fn sall<T>(s: Seq<T>, q: spec_fn(T) -> bool) -> bool { forall|i: int| 0 <= i < s.len() ==> q(#[trigger] s[i]) }
 
 // the sequence of references to the elements of `s` (what slice::Iter yields)
 pub open spec fn refs<'a, T>(s: Seq<T>) -> Seq<&'a T> { Seq::new(s.len(), |i: int| &s[i]) }
@@ -1433,6 +1446,13 @@ pub trait Iterator: Sized {
         ensures forall|q: spec_fn(Self::Item) -> bool|
             ((forall|t: Self::Item| #[trigger] predicate.ensures((t,), true) ==> q(t)) && (forall|t: Self::Item| #[trigger] predicate.ensures((t,), false) ==> !q(t)))
             ==> r == (#[trigger] first(old(self).items(), q) is Some);
+
+    // ::core::iter::Iterator::all
+    fn all<P: Fn(Self::Item) -> bool>(&mut self, predicate: P) -> (r: bool)
+        requires forall|t: Self::Item| #[trigger] predicate.requires((t,)),
+        ensures forall|q: spec_fn(Self::Item) -> bool|
+            ((forall|t: Self::Item| #[trigger] predicate.ensures((t,), true) ==> q(t)) && (forall|t: Self::Item| #[trigger] predicate.ensures((t,), false) ==> !q(t)))
+            ==> r == #[trigger] sall(old(self).items(), q);
 }
 
 } // verus!
@@ -1457,6 +1477,8 @@ macro_rules! assumed_iterator {
             fn chain<U: IntoIter<Item = Self::Item>>(self, other: U) -> (r: Chain<Self::Item>) { unimplemented!() }
             #[verifier::external_body]
             fn any<P: Fn(Self::Item) -> bool>(&mut self, predicate: P) -> (r: bool) { unimplemented!() }
+            #[verifier::external_body]
+            fn all<P: Fn(Self::Item) -> bool>(&mut self, predicate: P) -> (r: bool) { unimplemented!() }
         }
         impl<$($gen)*> IntoIter for $ty {
             type Item = $item;
@@ -2183,7 +2205,7 @@ struct QuoteTraitParams<'a> {
     pub r: Option<TokenStream>,
 }
 struct FieldContainer<'a> {
-    gr_idx: usize,
+    gr_idx: Vec<usize>,
     path: String,
     field_data: FieldData<'a>
 }
@@ -2582,11 +2604,13 @@ spec fn spec_into_line<'a>(f: &'a Field, ctx: ImplContext<'a>, hint: TypeHint, i
     let member = line_member(f, pc);
     let a = line_attr(f, ctx, pc);
     let src = into_src(f, member, a, ctx, pc);
+    // a body that pours a bare #[parent] assigns to `obj` field by field, through the #[child] path like into_existing [C03, C17]
+    let pre = child_prefix(&f.attrs, ctx.struct_attr.ty);
     if target_named(member, hint) {
         let dst = into_dst_name(f, member, a).toks();
-        if ctx.has_post_init { id("obj") + p(".") + dst + p("=") + src + p(";") } else { dst + p(":") + src + p(",") }
+        if ctx.has_post_init { id("obj") + p(".") + pre + dst + p("=") + src + p(";") } else { dst + p(":") + src + p(",") }
     } else {
-        if ctx.has_post_init { id("obj") + p(".") + int_tok(idx) + p("=") + src + p(";") } else { src + p(",") }
+        if ctx.has_post_init { id("obj") + p(".") + pre + int_tok(idx) + p("=") + src + p(";") } else { src + p(",") }
     }
 }
 
@@ -2968,7 +2992,7 @@ spec fn qparams<'a>(input: DataType<'a>, ctx: ImplContext<'a>) -> Q {
         inner_attr: ctx.struct_attr.inner_attribute.toks(),
         dst: ctx.dst_ty@,
         src: ctx.src_ty@,
-        these: dt_generics(input).toks(),
+        these: arg_form(dt_generics(input)),   // split_for_impl().1
         those: ctx.struct_attr.ty.generics.toks(),
         impl_gens: spec_impl_gens(input, ctx),
         wh: match spec_where_attr(dt_attrs(input).where_attrs@, ctx.struct_attr.ty) {
@@ -3021,7 +3045,8 @@ spec fn spec_try_from_impl(q: Q, err: Toks, pre_init: Toks, init: Toks) -> Toks 
 }
 spec fn into_body(q: Q, pre_init: Toks, init: Toks, post_init: Option<Toks>, ok: bool) -> Toks {
     match post_init {
-        Some(post) => id("let") + id("mut") + id("obj") + p(":") + q.dst + p("=") + id("Default") + p("::") + id("default") + paren(nil()) + p(";")
+        // vars(..) are bound first, whatever the form of the body [C08]
+        Some(post) => pre_init + id("let") + id("mut") + id("obj") + p(":") + q.dst + p("=") + id("Default") + p("::") + id("default") + paren(nil()) + p(";")
             + init + post + (if ok { id("Ok") + paren(id("obj")) } else { id("obj") }),
         None => pre_init + init,
     }
@@ -3148,6 +3173,7 @@ fn quote_into_trait(input: &DataType, ctx: &ImplContext, pre_init: Option<TokenS
 
     let body = match post_init {
         Some(post_init) => quote! {
+            #pre_init
             let mut obj: #dst = Default::default();
             #init
             #post_init
@@ -3186,6 +3212,7 @@ fn quote_try_into_trait(input: &DataType, ctx: &ImplContext, pre_init: Option<To
 
     let body = match post_init {
         Some(post_init) => quote! {
+            #pre_init
             let mut obj: #dst = Default::default();
             #init
             #post_init
@@ -3518,7 +3545,8 @@ spec fn with_post_init<'a>(ctx: ImplContext<'a>, b: bool) -> ImplContext<'a> {
 }
 
 spec fn the_post_init<'a>(input: DataType<'a>, ctx: ImplContext<'a>) -> Option<Toks> {
-    if k_is_from(ctx.kind) { None } else { spec_post_init(input, ctx) }
+    // `return expr` replaces the whole body: no parent is poured after it [C08]
+    if k_is_from(ctx.kind) || ctx.struct_attr.quick_return is Some { None } else { spec_post_init(input, ctx) }
 }
 
 // the one impl generated for (input, ctx): trait chosen by (kind, fallible); Ok-wrapping body iff TryFrom / TryInto
@@ -3548,7 +3576,7 @@ fn quote_trait(input: &DataType, ctx: &mut ImplContext) -> (r: TokenStream)
 {
 
     let pre_init = struct_pre_init(ctx);
-    let post_init = if ctx.kind.is_from() { None } else {
+    let post_init = if ctx.kind.is_from() || ctx.struct_attr.quick_return.is_some() { None } else {
         struct_post_init(input, ctx)
     };
     ctx.has_post_init = post_init.is_some();
@@ -3737,6 +3765,158 @@ broadcast use {flat_lemmas::group_flat, flat_lemmas::group_seq, ts_axioms::axiom
     }} )).map(    |mut ctx: ImplContext| -> (r: TokenStream) requires ctx_ok(ctx) ensures r@ == spec_impl(input, ctx)  {quote_trait(&input, &mut ctx)} );
 
     quote! { #(#impls)* }
+
+}
+
+
+// ---------------------------------------------------------------- the entry point: parse, validate, emit (C04, C16)
+// syn's input AST, as far as `derive` and the two `from_syn` look at it (ASSUMED shapes of the dependency's types)
+pub struct Attribute { _p: ::core::marker::PhantomData<()> }
+pub struct SynVariant { _p: ::core::marker::PhantomData<()> }
+pub struct FieldsNamed { _p: ::core::marker::PhantomData<()> }
+pub struct FieldsUnnamed { _p: ::core::marker::PhantomData<()> }
+pub struct DataUnion { _p: ::core::marker::PhantomData<()> }
+pub enum Fields { Named(FieldsNamed), Unnamed(FieldsUnnamed), Unit }
+pub struct DataStruct { pub fields: Fields }
+pub struct DataEnum { pub variants: Punctuated<SynVariant, Comma> }
+pub enum Data { Struct(DataStruct), Enum(DataEnum), Union(DataUnion) }
+pub struct DeriveInput { pub attrs: Vec<Attribute>, pub ident: Ident, pub generics: Generics, pub data: Data }
+
+impl Error {
+    #[verifier::external_body]
+    pub fn new_spanned(tokens: &DeriveInput, message: &str) -> (r: Error) { unimplemented!() }
+}
+
+
+struct Context {
+    variant_attrs_to_repeat: Option<MemberAttrs>,
+    field_attrs_to_repeat: Option<(MemberAttrs, bool)>,
+}
+impl Default for Context {
+    #[verifier::external_body]
+    fn default() -> (r: Context) { unimplemented!() }
+}
+
+// what the (unreachable for the verifier: syn ParseStream, FnMut closures) front-ends produce: uninterpreted relations
+pub uninterp spec fn parsed_type_attrs(attrs: Seq<Attribute>, out: DataTypeAttrs) -> bool;
+// whether unknown instructions are reported (`allow_unknown` absent): a function of the type-level attributes
+pub uninterp spec fn spec_bark(attrs: Seq<Attribute>) -> bool;
+pub uninterp spec fn parsed_fields(fields: Fields, bark: bool, out: Seq<Field>) -> bool;
+pub uninterp spec fn parsed_variants(variants: Seq<SynVariant>, bark: bool, out: Seq<Variant>) -> bool;
+
+mod attr {
+    use super::*;
+    #[verifier::external_body]
+    pub fn get_data_type_attrs(input: &Vec<Attribute>) -> (r: Result<(DataTypeAttrs, bool)>)
+        ensures r is Ok ==> (parsed_type_attrs(input@, r->Ok_0.0) && r->Ok_0.1 == spec_bark(input@)),
+    { unimplemented!() }
+}
+
+impl Field {
+    #[verifier::external_body]
+    fn multiple_from_syn(ctx: &mut Context, fields: &Fields, bark: bool) -> (r: Result<Vec<Field>>)
+        ensures r is Ok ==> parsed_fields(*fields, bark, r->Ok_0@),
+    { unimplemented!() }
+}
+impl Variant {
+    #[verifier::external_body]
+    fn multiple_from_syn(variants: &Punctuated<SynVariant, Comma>, bark: bool) -> (r: Result<Vec<Variant>>)
+        ensures r is Ok ==> parsed_variants(variants.pseq(), bark, r->Ok_0@),
+    { unimplemented!() }
+}
+
+// the deriving type's own name, generics and shape are taken from the item the attribute sits on; its instructions and members
+// are what the front-ends parsed
+spec fn struct_of<'a>(node: &'a DeriveInput, data: &'a DataStruct, s: Struct<'a>) -> bool {
+    &&& *s.ident == node.ident
+    &&& *s.generics == node.generics
+    &&& s.named_fields == (data.fields is Named)
+    &&& s.unit == (data.fields is Unit)
+    &&& parsed_type_attrs(node.attrs@, s.attrs)
+    &&& parsed_fields(data.fields, spec_bark(node.attrs@), s.fields@)
+}
+spec fn enum_of<'a>(node: &'a DeriveInput, data: &'a DataEnum, e: Enum<'a>) -> bool {
+    &&& *e.ident == node.ident
+    &&& *e.generics == node.generics
+    &&& parsed_type_attrs(node.attrs@, e.attrs)
+    &&& parsed_variants(data.variants.pseq(), spec_bark(node.attrs@), e.variants@)
+}
+
+impl<'a> Struct<'a> {
+ fn from_syn(node: &'a DeriveInput, data: &'a DataStruct) -> (r: Result<Self>)
+    ensures
+        r is Ok ==> struct_of(node, data, r->Ok_0), // #own-name-generics-shape-from-the-item
+{
+
+        let (attrs, bark) = attr::get_data_type_attrs(&node.attrs)?;
+        let fields = Field::multiple_from_syn(&mut Default::default(), &data.fields, bark)?;
+        Ok(Struct {
+            attrs,
+            ident: &node.ident,
+            generics: &node.generics,
+            fields,
+            named_fields: matches!(&data.fields, Fields::Named(_)),
+            unit: matches!(&data.fields, Fields::Unit),
+        })
+    
+}
+}
+
+impl<'a> Enum<'a> {
+ fn from_syn(node: &'a DeriveInput, data: &'a DataEnum) -> (r: Result<Self>)
+    ensures r is Ok ==> enum_of(node, data, r->Ok_0), // #own-name-generics-from-the-item
+{
+
+        let (attrs, bark) = attr::get_data_type_attrs(&node.attrs)?;
+        let variants = Variant::multiple_from_syn(&data.variants, bark)?;
+        Ok(Enum { attrs, ident: &node.ident, generics: &node.generics, variants })
+    
+}
+}
+
+// what validation has to establish for the emitters (everything `data_type_impl` requires).  ASSUMED of `validate`
+// (HashMap<String, Span>, format!, generic loops: outside the verifier); TESTED by the C16 ledger.
+spec fn emit_pre<'a>(input: DataType<'a>) -> bool {
+    &&& forall|j: int| 0 <= j < dt_attrs(input).attrs@.len() ==> ((#[trigger] dt_attrs(input).attrs@[j]).fallible ==> dt_attrs(input).attrs@[j].core.err_ty is Some)
+    &&& forall|j: int| #![trigger dt_attrs(input).attrs@[j]] 0 <= j < dt_attrs(input).attrs@.len() ==> (forall|k: Kind, f: bool, ty: TokenStream|
+            appl(dt_attrs(input).attrs@[j].applicable_to, k) && f == dt_attrs(input).attrs@[j].fallible
+            ==> body_pre(#[trigger] mk_ctx(&input, &dt_attrs(input).attrs@[j].core, k, f, &ty)))
+}
+#[verifier::external_body]
+fn validate(input: &DataType) -> (r: Result<()>)
+    ensures r is Ok ==> emit_pre(*input),
+{ unimplemented!() }
+
+// all impls of an input, in the fixed order of data_type_impl
+spec fn all_impls<'a>(input: DataType<'a>, r: Toks) -> bool {
+    forall|ty: TokenStream| ty@ == dt_ident(input).toks() ==> r == flat(#[trigger] all_ctxs(&input, &ty).map_values(impl_of(&input)))
+}
+
+ fn derive(node: &DeriveInput) -> (r: Result<TokenStream>)
+    ensures
+        // accepted: the item is a struct or an enum, its front-end view passed validation, and the result is exactly its impls
+        r is Ok ==> (match node.data {
+            Data::Struct(data) => exists|s: Struct| struct_of(node, &data, s) && emit_pre(DataType::Struct(&s)) && all_impls(DataType::Struct(&s), r->Ok_0@),
+            Data::Enum(data) => exists|e: Enum| enum_of(node, &data, e) && emit_pre(DataType::Enum(&e)) && all_impls(DataType::Enum(&e), r->Ok_0@),
+            Data::Union(_) => false,
+        }), // #accepted-input-yields-exactly-its-impls
+{
+
+    match &node.data {
+        Data::Struct(data) => {
+            let input = Struct::from_syn(node, data)?;
+            let input = DataType::Struct(&input);
+            validate(&input)?;
+            Ok(data_type_impl(input))
+        },
+        Data::Enum(data) => {
+            let input = Enum::from_syn(node, data)?;
+            let input = DataType::Enum(&input);
+            validate(&input)?;
+            Ok(data_type_impl(input))
+        },
+        _ => Err(Error::new_spanned(node, "#[derive(o2o)] only supports structs and enums.")),
+    }
 
 }
 
